@@ -74,6 +74,22 @@ class Ctx:
         return sum(1 for o in self.obligations if (rule is None or o["rule"] == rule) and o["verdict"] in verdicts)
 
 
+def analyse(prop: str, tier: str, repo: str | None = None, only_rule: str | None = None) -> Ctx:
+    """Run every rule registered for ``prop`` on the tree at ``repo`` (default: VERIF_REPO or /repo)."""
+    from sa.rules import REGISTRY
+
+    model = Model(repo) if repo else Model()
+    ctx = Ctx(model, prop, tier)
+    for rule_id, fn, doc in REGISTRY[prop]:
+        if only_rule and only_rule != rule_id:
+            continue
+        ctx.current_rule = rule_id
+        ctx.rule_docs[rule_id] = doc
+        fn(ctx)
+    ctx.current_rule = None
+    return ctx
+
+
 def load_known():
     if not os.path.exists(KNOWN):
         return {"findings": [], "fixed": []}
@@ -93,19 +109,12 @@ def run(prop: str, tier: str, replay: str | None = None) -> int:
     if prop not in REGISTRY:
         print(f"ANALYSIS-ERROR property={prop} no rules registered")
         return 2
-    model = Model()
-    ctx = Ctx(model, prop, tier)
     only = None
     if replay:
         with open(replay) as f:
             only = json.load(f)
-    for rule_id, fn, doc in REGISTRY[prop]:
-        if only and only.get("rule") != rule_id:
-            continue
-        ctx.current_rule = rule_id
-        ctx.rule_docs[rule_id] = doc
-        fn(ctx)
-    ctx.current_rule = None
+    ctx = analyse(prop, tier, only_rule=only.get("rule") if only else None)
+    model = ctx.model
 
     known = load_known()
     listed = {}
@@ -151,6 +160,13 @@ def run(prop: str, tier: str, replay: str | None = None) -> int:
     for o in violations[:20]:
         samples.append({k: o[k] for k in ("rule", "construct", "verdict", "loc", "detail")})
     distinct = len({(o["rule"], o["construct"]) for o in ctx.obligations if o["verdict"] != "unclassified"})
+    selftest = None
+    if tier == "thorough" and not replay:
+        from sa.selftest import run_selftest
+
+        selftest = run_selftest(prop, {(o["rule"], o["construct"]) for o in violations})
+        for ln in selftest.get("report_lines", []):
+            lines.append(ln)
     wall = time.time() - t0
     evidence = {
         "property_id": prop,
@@ -182,6 +198,7 @@ def run(prop: str, tier: str, replay: str | None = None) -> int:
             "checker_cmd": f"/venv/bin/python -m sa.check {prop} --tier {tier}",
             "trusted_base": ["CPython ast parser", "sa/model.py class model (bases, C3 MRO, constant folding)", "confirmed exception tables in sa/rules"],
             "exhaustive": True,
+            "checker_selftest": {k: v for k, v in (selftest or {}).items() if k != "report_lines"} if selftest else "quick tier: not run (thorough tier replays the committed seeded defects and behaviour-preserving edits against this property's rules)",
         },
         "assumptions": [
             "the behaviour of pandas / dask core functions called by tasks is as documented",
